@@ -308,6 +308,10 @@ class EndianFlow:
                     return self._check_pattern(fi, sd[0], sd[1], sd[2], sd[3], "of `%s`" % expr.id)
             defs = _local_defs(fi.node, expr.id)
             if not defs:
+                # a module-level constant naming a byte order:  LITTLE_ENDIAN = '<'   (the value decides, as for a literal)
+                v_ = prog.try_fold(expr, fi.module, default=None)
+                if v_ in ("<", ">"):
+                    return self.derived(fi, ast.copy_location(ast.Constant(value=v_), expr), depth + 1)
                 return False, "name %s has no definition" % expr.id
             for d in defs:
                 if isinstance(d, tuple):
@@ -601,6 +605,18 @@ def canonical_derivation(v, prog=None, mod=None):
     if not (isinstance(t, tuple) and t and t[0] == "binop" and t[1] == "&" and len(t[2]) == 2):
         return None
     flag = [x for x in t[2] if match(("sub", W(), ("const", W("f"))), x) is not None and find(x, ("global", "toc_properties"))]
+    if not flag and prog is not None:
+        # the flag through a named constant:  _BIG_ENDIAN_FLAG = toc_properties['kTocBigEndian']  folds to the flag's value
+        try:
+            table = prog.try_fold(prog.module("common").assigns.get("toc_properties"), prog.module("common"), default=None)
+        except Exception:
+            table = None
+        if isinstance(table, dict):
+            for x in t[2]:
+                names = [k for k, val in table.items() if x == ("const", val)]
+                if len(names) == 1 and a[0] == "const" and b[0] == "const":
+                    mask = [y for y in t[2] if y is not x][0]
+                    return mask, names[0], a[1], b[1]
     if not flag or a[0] != "const" or b[0] != "const":
         return None
     mask = [x for x in t[2] if x is not flag[0]][0]
@@ -654,6 +670,48 @@ def _guarded_by_byte_order(prog, flow, fi, node, prefix):
     return runs(prefix) and not runs(other)
 
 
+def _is_toc_mask_unpack(ctx, fi, call):
+    """the value unpacked here is used as a ToC mask: one of the names it is assigned to is and-ed with an entry of toc_properties, in
+    this function or in a package function it is handed to"""
+    prog = ctx.prog
+    names = _assigned_names(fi, call)
+    if not names:
+        return False
+    try:
+        table = prog.try_fold(prog.module("common").assigns.get("toc_properties"), prog.module("common"), default=None)
+    except Exception:
+        table = None
+    flagvals = set(table.values()) if isinstance(table, dict) else set()
+
+    def is_flag(e, f):
+        if isinstance(e, ast.Subscript) and (dotted(e.value) or "").split(".")[-1] == "toc_properties":
+            return True
+        v = prog.try_fold(e, f.module, default=None)
+        return isinstance(v, int) and not isinstance(v, bool) and v in flagvals
+
+    def anded(f, nms):
+        for b in walk_body(f.node):
+            if isinstance(b, ast.BinOp) and isinstance(b.op, ast.BitAnd):
+                for x, y in ((b.left, b.right), (b.right, b.left)):
+                    if isinstance(x, ast.Name) and x.id in nms and is_flag(y, f):
+                        return True
+        return False
+    if anded(fi, names):
+        return True
+    from .region import call_targets
+    for c in walk_body(fi.node):
+        if isinstance(c, ast.Call) and c is not call:
+            for q in call_targets(ctx, fi, c):
+                g = prog.functions.get(q)
+                if g is None:
+                    continue
+                ps = [p for p in g.params if not (g.cls is not None and not g.is_static and p in ("self", "cls"))]
+                passed = {p for p, a in list(zip(ps, c.args)) + [(k.arg, k.value) for k in c.keywords if k.arg] if isinstance(a, ast.Name) and a.id in names}
+                if passed and anded(g, passed):
+                    return True
+    return False
+
+
 @rule("BL3", "byte order is threaded through every read-side parse site", floor=40)
 def bl3(ctx, R):
     prog = ctx.prog
@@ -670,7 +728,7 @@ def bl3(ctx, R):
             # constant format
             lit = body if isinstance(body, str) else None
             parent_targets = _assigned_names(fi, call)
-            if fi.qual == "reader.TdmsReader._read_lead_in" and "toc_mask" in parent_targets and lit and lit.startswith("<"):
+            if lit and lit.startswith("<") and _is_toc_mask_unpack(ctx, fi, call):
                 R.ok(key, where, "reviewed exception: the ToC mask carries the byte-order flag and is little-endian by specification")
             elif lit is not None and all(ch in "bBx?cs0123456789<>=!@" for ch in lit):
                 R.ok(key, where, "single-byte fields only")
@@ -678,6 +736,9 @@ def bl3(ctx, R):
                 R.ok(key, where, "constant %r format selected by a test of the byte order" % lit[0])
             else:
                 R.violation(key, where, "fixed byte order: format %r does not depend on the segment's endianness" % (lit or unparse(call.args[0])))
+            continue
+        if prog.try_fold(pre, fi.module, default=None) == "<" and _is_toc_mask_unpack(ctx, fi, call):
+            R.ok(key, where, "reviewed exception: the ToC mask carries the byte-order flag and is little-endian by specification")
             continue
         ok, why = flow.derived(fi, pre)
         R.check(ok, key, where, why, "format prefix `%s` is not the segment's byte order: %s" % (unparse(pre), why))
